@@ -125,11 +125,14 @@ Http::One::TeChunkedParser::parseChunkMetadataSuffix(Tokenizer &tok)
     // Code becomes much simpler when incremental parsing functions throw on
     // bad or insufficient input, like in the code below. TODO: Expand up.
     try {
-        // Bug 4492: IBM_HTTP_Server sends SP after chunk-size.
+        parseChunkExtensions(tok); // a possibly empty chunk-ext list
+
+        // Bug 4492: IBM_HTTP_Server sends SP after chunk-size. Tolerate such
+        // whitespace after chunk-size and after the last chunk-ext alike, so
+        // that the outcome does not depend on where the input was split.
         // No ParseBws() here because it may consume CR required further below.
         ParseStrictBws(tok);
 
-        parseChunkExtensions(tok); // a possibly empty chunk-ext list
         tok.skipRequired("CRLF after [chunk-ext]", Http1::CrLf());
         buf_ = tok.remaining();
         parsingStage_ = theChunkSize ? Http1::HTTP_PARSE_CHUNK : Http1::HTTP_PARSE_MIME;
